@@ -16,6 +16,32 @@ class InjectedFault(Exception):
         self.idx = idx
 
 
+class InjectedAttributeError(AttributeError):
+    """A fault that looks like a typo / a None dependency inside user code."""
+
+    def __init__(self, site, idx):
+        super().__init__(f"injected AttributeError at {site}#{idx}")
+        self.site, self.idx = site, idx
+
+
+class InjectedKeyError(KeyError):
+    def __init__(self, site, idx):
+        super().__init__(f"injected KeyError at {site}#{idx}")
+        self.site, self.idx = site, idx
+
+
+class InjectedBaseException(BaseException):
+    """Not an Exception subclass (like SystemExit raised by a careless sys.exit() in user code)."""
+
+    def __init__(self, site, idx):
+        super().__init__(f"injected BaseException at {site}#{idx}")
+        self.site, self.idx = site, idx
+
+
+FAULT_KINDS = {True: InjectedFault, "plain": InjectedFault, "attr": InjectedAttributeError, "key": InjectedKeyError,
+               "base": InjectedBaseException}
+
+
 class Recorder:
     def __init__(self, plan, tracked, now, step, mode_sub):
         self.plan = plan            # site -> {str(idx): step}
@@ -56,7 +82,7 @@ class Recorder:
             if adv:
                 self.step(adv)
             if st.get("raise"):
-                e = InjectedFault(site, i)
+                e = FAULT_KINDS[st["raise"]](site, i)
                 self.faults.append(e)
                 self.log.append(["raise", site, i])
                 raise e
